@@ -132,6 +132,62 @@ def assign_items(rnd, tier, start):
     return items
 
 
+def struct_values(raw, names):
+    """current values of the fields that select the next layer or give a header length, read off the frame"""
+    out = {}
+    off = 0
+    for n in names:
+        if n == "eth":
+            out[("eth", "type")] = int.from_bytes(raw[off + 12:off + 14], "big")
+            off += 14
+        elif n == "vlan":
+            out[("vlan", "type")] = int.from_bytes(raw[off + 2:off + 4], "big")
+            off += 4
+        elif n == "ipv4":
+            out[("ipv4", "ihl")] = raw[off] & 15
+            out[("ipv4", "proto")] = raw[off + 9]
+            off += (raw[off] & 15) * 4
+        elif n == "ipv6":
+            out[("ipv6", "nextheader")] = raw[off + 6]
+            off += 40
+        elif n == "tcp":
+            out[("tcp", "dataoff")] = raw[off + 12] >> 4
+    return out
+
+
+def sequence_histories(rnd, start):
+    """two assignments on one packet: a field of one layer, and a field that selects the next layer or gives a
+    header length re-assigned the value it already has (the structure stays, so everything stays decided); in both
+    orders.  An assignment must not undo or hide an earlier one made in another layer."""
+    items = []
+    inner = {"eth": ["src"], "vlan": ["priority", "id"], "ipv4": ["ttl", "id", "dst"], "ipv6": ["hoplimit", "flowlabel"],
+             "tcp": ["srcport", "window", "flags"], "udp": ["dstport"]}
+    for stack in ("tcp", "udp", "ipv6/tcp", "vlan/ipv4"):
+        names = PATHS[stack]
+        for ikind in names:
+            for iprop in inner.get(ikind, []):
+                if iprop not in pkt.LAYER_PROPS[ikind]:
+                    continue
+                raw = stack_frame(rnd, names)
+                cur = struct_values(raw, names)
+                for (skind, sprop), sval in sorted(cur.items()):
+                    for order in (0, 1):
+                        ipath = [{"t": "name", "n": x} for x in names[:names.index(ikind) + 1]]
+                        spath = [{"t": "name", "n": x} for x in names[:names.index(skind) + 1]]
+                        if (ikind, iprop) in pkt.ADDR_FIELDS:
+                            ival = pkt.jstr(GOOD_ADDR[pkt.ADDR_FIELDS[(ikind, iprop)]][0])
+                        else:
+                            ival = pkt.jint(rnd.randrange(1 << pkt.FIELD_BITS[(ikind, iprop)]))
+                        a1 = {"op": "assign", "path": ipath, "prop": iprop, "val": ival}
+                        a2 = {"op": "assign", "path": spath, "prop": sprop, "val": pkt.jint(sval)}
+                        hist = dump_steps(names, only_layer=ikind)[:2] + ([a1, a2] if order == 0 else [a2, a1])
+                        hist += dump_steps(names) + [{"op": "write", "sink": "pcap_write"}]
+                        items.append({"id": start + len(items), "hdr": pkt.record_header(rnd, len(raw)), "raw": raw,
+                                      "hist": hist, "via_dollar": False, "check": ["read", "write", "assign"],
+                                      "tag": "sequence %s.%s %s %s.%s(same value)" % (ikind, iprop, "then" if order == 0 else "after", skind, sprop)})
+    return items
+
+
 def random_histories(rnd, n, start):
     items = []
     for i in range(n):
@@ -171,6 +227,7 @@ def run(rep, tier, seed):
     try:
         items = assign_items(rnd, tier, 0)
         items += random_histories(rnd, 400 if tier == "quick" else 6000, len(items))
+        items += sequence_histories(rnd, len(items))
         recs = pkt.run_histories(items, d)
         for it, r in zip(items, recs):
             r["check"] = it["check"]
@@ -198,7 +255,9 @@ def run(rep, tier, seed):
         rep.cov["rule"] = ("every writable property x (all values up to 8 bits [thorough 12], boundary / walking bits otherwise) x "
                            "above-range, negative, wrong-kind values, valid and malformed address texts, read-only properties, on "
                            "four fixed layer stacks with options; followed by a read of every property on the path and a write; "
-                           "plus random histories of 2-4 assignments with reads and writes in between; distinct = distinct scripts")
+                           "plus random histories of 2-4 assignments with reads and writes in between, and two-assignment sequences "
+                           "pairing a field of one layer with a structure-selecting field re-assigned its own value, in both "
+                           "orders; distinct = distinct scripts")
         rep.cov["exhaustive"] = False
         rep.sample({"script": items[0]["src"][:1500], "frame_hex": bytes(items[0]["raw"]).hex()})
     finally:
